@@ -9,12 +9,15 @@ require (
 
 require (
 	git.apache.org/thrift.git v0.13.0 // indirect
+	github.com/cheekybits/genny v1.0.0 // indirect
 	github.com/gogo/protobuf v1.2.1 // indirect
 	github.com/golang/protobuf v1.4.2 // indirect
 	github.com/henrylee2cn/ameda v1.3.6 // indirect
 	github.com/henrylee2cn/cfgo v0.0.0-20180417024816-e6c3cc325b21 // indirect
 	github.com/klauspost/cpuid v1.2.2 // indirect
 	github.com/klauspost/reedsolomon v1.9.3 // indirect
+	github.com/lucas-clemente/quic-go v0.18.0 // indirect
+	github.com/marten-seemann/qtls-go1-15 v0.1.0 // indirect
 	github.com/pkg/errors v0.8.1 // indirect
 	github.com/templexxx/cpu v0.0.1 // indirect
 	github.com/templexxx/xorsimd v0.4.1 // indirect
